@@ -365,7 +365,11 @@ func (r *Round) UpdateNotarizedBlock(b *block.Block) {
 
 /*GetNotarizedBlocks - return all the notarized blocks associated with this round */
 func (r *Round) GetNotarizedBlocks() []*block.Block {
-	return r.notarizedBlocks
+	r.mutex.RLock()
+	defer r.mutex.RUnlock()
+	nbs := make([]*block.Block, len(r.notarizedBlocks))
+	copy(nbs, r.notarizedBlocks)
+	return nbs
 }
 
 /*AddProposedBlock - this will be concurrent as notarization is recognized by verifying as well as notarization message from others */
